@@ -3,7 +3,8 @@ import RisorModel.Generated.C19
 /-!
 C19 ties: the wrapper inventory regenerated from `modules/strings/strings.go` and
 `strings_gen.go` on this run (exported name, Go function called and the order in which the
-parameters are passed on, argument converters, result constructor) equals the hand-written
+parameters are passed on, argument converters, result constructor, the tests the exported
+function makes on its parameters before the call) equals the hand-written
 table `stringsSigs` that the theorems in `Props.lean` are stated over; and the type switches
 of `object.AsBytes` / `object.AsString` regenerated from `object/typeconv.go` send every
 argument object to the same kind of case (look / read as a stream / refuse) as the tables
